@@ -1471,6 +1471,211 @@ func runCorpus(in string, out *common.Out) {
 	}
 }
 
+// ---------------------------------------------------------------- replay: a case line back into a case
+
+type sx struct {
+	atom string
+	str  bool
+	list []*sx
+}
+
+func parseSx(s string) (*sx, error) {
+	i := 0
+	var item func() (*sx, error)
+	ws := func() {
+		for i < len(s) && (s[i] == ' ' || s[i] == '\t' || s[i] == '\n') {
+			i++
+		}
+	}
+	item = func() (*sx, error) {
+		ws()
+		if i >= len(s) {
+			return nil, fmt.Errorf("eof")
+		}
+		switch s[i] {
+		case '(':
+			i++
+			n := &sx{list: []*sx{}}
+			for {
+				ws()
+				if i >= len(s) {
+					return nil, fmt.Errorf("eof in list")
+				}
+				if s[i] == ')' {
+					i++
+					return n, nil
+				}
+				x, err := item()
+				if err != nil {
+					return nil, err
+				}
+				n.list = append(n.list, x)
+			}
+		case '"':
+			i++
+			var sb strings.Builder
+			for i < len(s) && s[i] != '"' {
+				if s[i] == '\\' && i+2 < len(s) {
+					v, _ := strconv.ParseUint(s[i+1:i+3], 16, 8)
+					sb.WriteByte(byte(v))
+					i += 3
+					continue
+				}
+				sb.WriteByte(s[i])
+				i++
+			}
+			i++
+			return &sx{atom: sb.String(), str: true}, nil
+		}
+		st := i
+		for i < len(s) && s[i] != ' ' && s[i] != '(' && s[i] != ')' && s[i] != '"' {
+			i++
+		}
+		return &sx{atom: s[st:i]}, nil
+	}
+	return item()
+}
+
+func (x *sx) head() string {
+	if x.list != nil && len(x.list) > 0 {
+		return x.list[0].atom
+	}
+	return ""
+}
+
+func tyOfSx(x *sx) *Ty {
+	switch x.head() {
+	case "n":
+		return Named(x.list[1].atom)
+	case "l":
+		return ListOf(tyOfSx(x.list[1]))
+	}
+	return &Ty{K: 2, Of: tyOfSx(x.list[1])}
+}
+
+func valueOfSx(x *sx) *J {
+	switch x.head() {
+	case "vnull":
+		return jNull()
+	case "vbool":
+		return jBool(x.list[1].atom == "t")
+	case "vint", "vfloat":
+		return jNum(x.list[1].atom)
+	case "vstr":
+		return jStr(x.list[1].atom)
+	case "venum":
+		return jEnum(x.list[1].atom)
+	case "vlist":
+		a := jArr()
+		for _, y := range x.list[1:] {
+			a.A = append(a.A, valueOfSx(y))
+		}
+		return a
+	}
+	o := jObj()
+	for _, m := range x.list[1:] {
+		o.O = append(o.O, Member{m.list[0].atom, valueOfSx(m.list[1])})
+	}
+	return o
+}
+
+func defaultOfSx(x *sx) *J {
+	if x.head() == "none" {
+		return nil
+	}
+	return valueOfSx(x.list[1])
+}
+
+func jsonOfSx(x *sx) *J {
+	switch x.head() {
+	case "null":
+		return jNull()
+	case "b":
+		return jBool(x.list[1].atom == "t")
+	case "num":
+		return jNum(x.list[1].atom)
+	case "str":
+		return jStr(x.list[1].atom)
+	case "arr":
+		a := jArr()
+		for _, y := range x.list[1:] {
+			a.A = append(a.A, jsonOfSx(y))
+		}
+		return a
+	}
+	o := jObj()
+	for _, m := range x.list[1:] {
+		o.O = append(o.O, Member{m.list[0].atom, jsonOfSx(m.list[1])})
+	}
+	return o
+}
+
+func caseOfLine(line string) (*caseT, error) {
+	x, err := parseSx(line)
+	if err != nil {
+		return nil, err
+	}
+	if x.head() != "c06" || len(x.list) < 4 {
+		return nil, fmt.Errorf("not a c06 case")
+	}
+	s := &Schema{}
+	for _, t := range x.list[1].list[1:] {
+		switch t.head() {
+		case "scalar":
+			if !isBuiltin(t.list[1].atom) {
+				s.Types = append(s.Types, &TypeDef{Kind: "scalar", Name: t.list[1].atom})
+			}
+		case "enum":
+			td := &TypeDef{Kind: "enum", Name: t.list[1].atom}
+			for _, v := range t.list[2:] {
+				td.Values = append(td.Values, EnumVal{v.list[0].atom, v.list[1].atom == "t"})
+			}
+			s.Types = append(s.Types, td)
+		case "input":
+			td := &TypeDef{Kind: "input", Name: t.list[1].atom, OneOf: t.list[2].atom == "t"}
+			for _, f := range t.list[3:] {
+				td.Fields = append(td.Fields, Field{f.list[0].atom, tyOfSx(f.list[1]), defaultOfSx(f.list[2])})
+			}
+			s.Types = append(s.Types, td)
+		}
+	}
+	var vars []VarDef
+	for _, v := range x.list[2].list[1:] {
+		vars = append(vars, VarDef{v.list[0].atom, tyOfSx(v.list[1]), defaultOfSx(v.list[2])})
+	}
+	return &caseT{schema: s, vars: vars, json: jsonOfSx(x.list[3].list[1]), note: "replay"}, nil
+}
+
+// replay: re-executes the inputs of recorded case lines on the current implementation
+func runReplay(in string, out *common.Out) {
+	f, err := os.Open(in)
+	if err != nil {
+		fmt.Fprintln(os.Stderr, err)
+		os.Exit(2)
+	}
+	defer f.Close()
+	sc := bufio.NewScanner(f)
+	sc.Buffer(make([]byte, 1<<20), 1<<26)
+	cache := map[string]*graphql.Schema{}
+	for sc.Scan() {
+		line := strings.TrimSpace(sc.Text())
+		if line == "" {
+			continue
+		}
+		c, err := caseOfLine(line)
+		if err != nil {
+			fmt.Fprintln(os.Stderr, "replay:", err)
+			os.Exit(2)
+		}
+		l, why := runCase(c, cache)
+		if l == "" {
+			fmt.Fprintln(os.Stderr, "replayed case did not reach the variables stage:", why)
+			os.Exit(2)
+		}
+		out.Line(l)
+	}
+}
+
 func main() {
 	if len(os.Args) < 2 {
 		fmt.Fprintln(os.Stderr, "usage: c06 gen -seed S -n N -out F | corpus -in F -out F | exp SDL OP VARS")
@@ -1496,6 +1701,11 @@ func main() {
 		a := common.Args(os.Args[2:])
 		out := common.NewOut(a["out"])
 		runCorpus(a["in"], out)
+		out.Close()
+	case "replay":
+		a := common.Args(os.Args[2:])
+		out := common.NewOut(a["out"])
+		runReplay(a["in"], out)
 		out.Close()
 	default:
 		os.Exit(2)
